@@ -42,11 +42,14 @@ Qed.
 Lemma count_lf_app a b : count_lf (a ++ b) = (count_lf a + count_lf b)%nat.
 Proof. unfold count_lf. rewrite filter_app, app_length. reflexivity. Qed.
 
-Record RectAt (lm : Z) (t t' : term) (w h : Z) : Prop := {
+(** [need i j]: the cell at line [i], column [j] of the rectangle must be covered
+    (everything for a render; for a padding with an empty fill only the inner render) *)
+Record RectAt (need : Z -> Z -> bool) (lm : Z) (t t' : term) (w h : Z) : Prop := {
   ra_log : exists evs,
       log t' = log t ++ evs
       /\ forallb (ev_inside (row t) lm h w) evs = true
-      /\ (forall r c, row t <= r < row t + h -> lm <= c < lm + w -> covered evs r c = true);
+      /\ (forall r c, row t <= r < row t + h -> lm <= c < lm + w ->
+          need (r - row t) (c - lm) = true -> covered evs r c = true);
   ra_row : row t' = row t + h - 1;
   ra_col : col t' = lm + w;
   ra_sgr : sgr t' = adefault;
@@ -56,12 +59,16 @@ Record RectAt (lm : Z) (t t' : term) (w h : Z) : Prop := {
   ra_synced : synced t' = synced t
 }.
 
-Definition Rect (w h : Z) (R : list tok) : Prop :=
+Definition RectG (need : Z -> Z -> bool) (w h : Z) (R : list tok) : Prop :=
   0 < w /\ 0 < h
-  /\ (forall lm t, clean t -> col t = lm -> sgr t = adefault -> RectAt lm t (exec lm t R) w h)
+  /\ (forall lm t, clean t -> col t = lm -> sgr t = adefault ->
+        RectAt need lm t (exec lm t R) w h)
   /\ (forall lm t, clean t -> col t = lm -> sgr t = adefault -> lf_ok lm w t R)
   /\ count_lf R = Z.to_nat (h - 1)
   /\ last R TNul <> TLF.
+
+Definition all_cells (_ _ : Z) : bool := true.
+Definition Rect := RectG all_cells.
 
 (** ** A rectangle that fits on the screen is drawn without wrapping, scrolling or
        leaving the screen *)
@@ -73,13 +80,13 @@ Proof.
     repeat (rewrite ?andb_true_iff, ?Z.leb_le, ?Z.ltb_lt in * ); lia.
 Qed.
 
-Theorem rect_fits W H top lm t w h R :
-  Rect w h R -> clean t -> col t = lm -> sgr t = adefault ->
+Theorem rect_fits need W H top lm t w h R :
+  RectG need w h R -> clean t -> col t = lm -> sgr t = adefault ->
   0 <= lm -> lm + w <= W -> top <= row t -> row t + h <= top + H ->
   exists evs, log (exec lm t R) = log t ++ evs /\ fits_noscroll W H top evs = true.
 Proof.
   intros (Hw & Hh & HR & _) Hc Hcol Hs Hlm HW Htop HH.
-  destruct (ra_log _ _ _ _ _ (HR lm t Hc Hcol Hs)) as (evs & El & Hin & _).
+  destruct (ra_log _ _ _ _ _ _ (HR lm t Hc Hcol Hs)) as (evs & El & Hin & _).
   exists evs. split; [exact El|]. unfold fits_noscroll.
   rewrite forallb_forall in *. intros e He.
   eapply ev_inside_mono; [| | | |apply Hin, He]; lia.
